@@ -161,6 +161,28 @@ def run_driver(exe, scenarios, timeout=600, env=None, threads=1, mpi=0):
     return recs, p.returncode, p.stderr
 
 
+def run_driver_resilient(exe, scenarios, timeout=600, env=None, threads=1, max_restarts=3000):
+    """Runs all scenarios; when the driver dies (crash, sanitizer abort, hang) the scenario it died in is recorded
+    and the run continues with the scenarios after it. Returns (records without Done lines, {id: stderr tail})."""
+    recs, crashed = [], {}
+    todo = list(scenarios)
+    restarts = 0
+    while todo and restarts <= max_restarts:
+        out, rc, err = run_driver(exe, todo, timeout=timeout, env=env, threads=threads)
+        done = [r["id"] for r in out if r.get("e") == "Done"]
+        recs.extend(r for r in out if r.get("e") != "Done")
+        if len(done) >= len(todo):
+            break
+        bad = todo[len(done)]
+        crashed[bad.get("id")] = "rc=%s %s" % (rc, err[-1500:])
+        todo = todo[len(done) + 1:]
+        restarts += 1
+    if todo and restarts > max_restarts:
+        log("INFRA: driver restarted %d times, %d scenarios not executed" % (restarts, len(todo)))
+        sys.exit(2)
+    return recs, crashed
+
+
 # ---------------------------------------------------------------------------------------
 # verdicts / known findings / evidence
 # ---------------------------------------------------------------------------------------
